@@ -444,6 +444,11 @@ func (g *storageGen) next() (sdk.Msg, map[string]interface{}, func(pre, post stS
 			if r.Intn(12) == 0 {
 				expires = c.H + 400*365*14400 // four centuries: End - Start exceeds time.Duration
 			}
+			if r.Intn(14) == 0 {
+				// around 10000-01-01, past which a timestamp cannot be stored (the codec panics, the
+				// transaction fails), and far beyond it
+				expires = c.H + []int64{7900, 7960, 7970, 7975, 7980, 8100, 300_000, 1_000_000}[r.Intn(8)]*365*14400 + int64(r.Intn(14400*300))
+			}
 		} else if r.Intn(8) == 0 {
 			expires = -int64(1 + r.Intn(5)) // non-positive Expires is plan-paid
 		}
